@@ -77,29 +77,33 @@ func (m *c06Model) peek(s, v int, w uint64) (outside bool) {
 	if voted && fv == v {
 		return false
 	}
-	E, direct, nDirect := m.E, map[int]uint64{}, map[int]int{}
-	for k, x := range m.direct {
-		direct[k] = x
-	}
-	for k, x := range m.nDirect {
-		nDirect[k] = x
-	}
+	E := m.E
 	if voted {
 		E += w
-		direct[fv] -= w
-		nDirect[fv]--
-	} else {
-		direct[v] += w
-		nDirect[v]++
 	}
 	if E >= m.T {
 		return true
 	}
+	// tallies after the vote differ from the current ones only at fv (loses w and a voter) or at v (gains them)
 	n := 0
-	for val, k := range nDirect {
-		if k > 0 && direct[val]+E >= m.T {
+	sawV := false
+	for val, k := range m.nDirect {
+		d := m.direct[val]
+		switch {
+		case voted && val == fv:
+			k--
+			d -= w
+		case !voted && val == v:
+			k++
+			d += w
+			sawV = true
+		}
+		if k > 0 && d+E >= m.T {
 			n++
 		}
+	}
+	if !voted && !sawV && w+E >= m.T {
+		n++
 	}
 	return n >= 2
 }
@@ -404,6 +408,7 @@ func c06Report(c *kit.Ctx, u *c06Universe, cfgName string, seq []c06Sym, fk, msg
 // exhaustive part
 
 type c06Cfg struct {
+	maxLen  int
 	name    string
 	step    step
 	weights func(T uint64) []uint64
@@ -413,6 +418,10 @@ type c06Cfg struct {
 func c06Div(T uint64, k uint64) uint64 { return (T + k - 1) / k }
 
 func c06Configs(quick bool) []c06Cfg {
+	maxLen := 6
+	if quick {
+		maxLen = 4
+	}
 	ws := []struct {
 		n string
 		f func(T uint64) []uint64
@@ -425,18 +434,14 @@ func c06Configs(quick bool) []c06Cfg {
 		{"exact", func(T uint64) []uint64 { return []uint64{T - 2, 1, 1, 1} }},                                   // reaches T exactly with 3
 		{"one-short", func(T uint64) []uint64 { h := c06Div(T, 3); return []uint64{h, h, T - 2*h - 1 + 0, 1} }}, // 3 voters: T-1, 4th makes exactly T
 	}
-	steps := []struct {
+	type stepCfg struct {
 		s   step
 		bot bool
-	}{{soft, false}, {next, true}}
-	if !quick {
-		steps = append(steps, struct {
-			s   step
-			bot bool
-		}{cert, false}, struct {
-			s   step
-			bot bool
-		}{down, true})
+		len int
+	}
+	steps := []stepCfg{{soft, false, maxLen}, {next, true, maxLen}}
+	if !quick { // the other step types differ only in threshold and event type: one level shallower
+		steps = append(steps, stepCfg{cert, false, maxLen - 1}, stepCfg{down, true, maxLen - 1})
 	}
 	var out []c06Cfg
 	for _, st := range steps {
@@ -445,7 +450,7 @@ func c06Configs(quick bool) []c06Cfg {
 			if st.bot {
 				n += "-bot"
 			}
-			out = append(out, c06Cfg{name: n, step: st.s, weights: w.f, bottom: st.bot})
+			out = append(out, c06Cfg{name: n, step: st.s, weights: w.f, bottom: st.bot, maxLen: st.len})
 		}
 	}
 	return out
@@ -461,7 +466,7 @@ func TestVerifC06Exhaustive(t *testing.T) {
 	c := kit.Start(t, "C06", "exhaustive")
 	defer c.Finish()
 	maxLen := c.N(4, 6)
-	c.Rule(fmt.Sprintf("all sequences (with repeats) up to length %d over 4 senders x 3 values (12 symbols) of synthetic struct-level votes fed to a fresh voteTracker (wrapped in its contract checker), under 7 weight assignments (threshold crossed by the 2nd, 3rd, 4th voter, by a whale plus anyone, exactly, and by an equivocator) and steps soft/next (thorough also cert/down; value 0 is bottom for next/down); a branch ends where the next vote would leave the tracker's assumption (equivocator weight >= threshold or two values at the threshold); distinct = (configuration, final tally shape)", maxLen))
+	c.Rule(fmt.Sprintf("all sequences (with repeats) up to length %d (cert/down in the thorough tier: one less) over 4 senders x 3 values (12 symbols) of synthetic struct-level votes fed to a fresh voteTracker (wrapped in its contract checker), under 7 weight assignments (threshold crossed by the 2nd, 3rd, 4th voter, by a whale plus anyone, exactly, and by an equivocator) and steps soft/next (thorough also cert/down; value 0 is bottom for next/down); a branch ends where the next vote would leave the tracker's assumption (equivocator weight >= threshold or two values at the threshold); distinct = (configuration, final tally shape)", maxLen))
 	c.Assume("votes are struct-level (no cryptography): the tracker does not look at signatures; weights are per sender")
 	cfgs := c06Configs(c.Quick())
 	type task struct {
@@ -496,7 +501,7 @@ func TestVerifC06Exhaustive(t *testing.T) {
 				lc := c06Local{byStep: map[string]int64{}, distinct: map[string]struct{}{}}
 				u := c06SyntheticUniverse(protocol.ConsensusCurrentVersion, tk.cfg.step, tk.cfg.weights(mustT(tk.cfg.step)), nV, tk.cfg.bottom)
 				seq := append([]c06Sym(nil), tk.prefix...)
-				limit := maxLen
+				limit := tk.cfg.maxLen
 				if len(tk.prefix) == 1 {
 					limit = 1 // only the node itself
 				}
@@ -543,7 +548,7 @@ func TestVerifC06Exhaustive(t *testing.T) {
 		c.Exhaustive()
 	}
 	c.Sample(map[string]any{"senders": nS, "values": nV, "max_len": maxLen, "configurations": len(cfgs), "example_weights_soft_mixed": c06Configs(true)[4].weights(mustT(soft)), "soft_threshold": mustT(soft)})
-	c.Require("sequences", int64(c.N(100000, 10000000)))
+	c.Require("sequences", int64(c.N(100000, 30000000)))
 	c.Require("threshold_emissions", 1000)
 	c.Require("quorum_completed_by_equivocation", 50)
 	c.Require("duplicate_votes_fed", 1000)
